@@ -600,7 +600,13 @@ def run_manager(spec):
                 f = lambda: {"trial": tid_json(mgr.top_of_previous_rung(b, inp["pos"]))}
             elif q == "parent":
                 off = mgr._bracket_id_to_offset[b]
-                lv = rng.choice([l for _, l in mgr.bracket_rungs[off]])
+                # only levels whose parent rung lies in an earlier bracket: for offset 0 and
+                # rung_index >= num_bracket_offsets the real loop does not advance (bracket_delta
+                # <= 0, it can hang) — see the report; such queries are not made
+                lvs = [l for _, l in mgr.bracket_rungs[off] if mgr._parent_rung[(off, l)][0] >= 1]
+                if not lvs:
+                    continue
+                lv = rng.choice(lvs)
                 inp = {"op": "parent_slot", "bracket": b, "level": int(lv), "slot_index": rng.randrange(3)}
                 f = lambda: {"trial": tid_json(mgr.trial_id_from_parent_slot(b, inp["level"], inp["slot_index"]))}
             else:
